@@ -326,10 +326,11 @@ class DecRec:
             v, vraw = t
             if vraw != v + "_raw":
                 raise Unrec("value/raw names: " + up(st))
-            if is_call(c, "decode_number", 7):
+            if is_call(c, "decode_number", 7) or is_call(c, "decode_number", 8):
                 std_args(c)
+                ofs = const_lit(c.args[7], self.src) if len(c.args) == 8 else (0, 0, False)
                 return (("number", const_nat(c.args[2]), const_bool(c.args[3]), const_lit(c.args[4], self.src), const_lit(c.args[5], self.src),
-                         const_lit(c.args[6], self.src), "id"), v, vraw, i + 1, False)
+                         const_lit(c.args[6], self.src), "id", ofs), v, vraw, i + 1, False)
             if is_call(c, "decode_int", 3):
                 std_args(c)
                 return ("rawInt", const_nat(c.args[2])), v, vraw, i + 1, False
@@ -362,7 +363,7 @@ class DecRec:
                 if post is None:
                     raise Unrec("post-processing of number: " + up(st2))
                 return (("number", const_nat(c.args[2]), const_bool(c.args[3]), const_lit(c.args[4], self.src), const_lit(c.args[5], self.src),
-                         const_lit(c.args[6], self.src), post), v, vraw, i + 2, False)
+                         const_lit(c.args[6], self.src), post, (0, 0, False)), v, vraw, i + 2, False)
             if is_call(c, "decode_int", 3):
                 std_args(c)
                 ln = const_nat(c.args[2])
@@ -385,7 +386,7 @@ def is_call_kw(n, fname):
 def lean_op(op):
     k = op[0]
     if k == "number":
-        return f".number {op[1]} {lbool(op[2])} {llit(op[3])} {llit(op[4])} {llit(op[5])} .{op[6]}"
+        return f".number {op[1]} {lbool(op[2])} {llit(op[3])} {llit(op[4])} {llit(op[5])} {llit(op[7])} .{op[6]}"
     if k in ("lookup", "bitLookup"):
         return f".{k} {op[1]} {lstr(op[2])}"
     if k in ("rawInt", "binary", "binaryVar", "stringFix", "indirect"):
@@ -503,11 +504,11 @@ def rec_enc(node, src):
         u = up(st)
         kind = None
         NUMASSERT = "assert field.value is None or isinstance(field.value, (int, float))"
-        if u == NUMASSERT and is_assign_call(sts[i + 1], "field_value", "encode_number", 4):
+        if u == NUMASSERT and (is_assign_call(sts[i + 1], "field_value", "encode_number", 4) or is_assign_call(sts[i + 1], "field_value", "encode_number", 5)):
             c = sts[i + 1].value
             if up(c.args[0]) != "field.value":
                 raise Unrec("encode_number argument: " + up(c))
-            kind = ("number", const_nat(c.args[1]), const_bool(c.args[2]), const_lit(c.args[3], src))
+            kind = ("number", const_nat(c.args[1]), const_bool(c.args[2]), const_lit(c.args[3], src), const_lit(c.args[4], src) if len(c.args) == 5 else (0, 0, False))
             i += 2
         elif u == NUMASSERT and up(sts[i + 1]) == "field_value = encode_float(field.value)":
             kind = ("float",)
@@ -564,7 +565,7 @@ def is_assign_call(st, target, fname, nargs):
 
 def lean_enc_kind(k):
     if k[0] == "number":
-        return f"(.number {k[1]} {lbool(k[2])} {llit(k[3])})"
+        return f"(.number {k[1]} {lbool(k[2])} {llit(k[3])} {llit(k[4])})"
     if k[0] == "time":
         return f"(.time {llit(k[1])} {k[2]} {lbool(k[3])})"
     if k[0] == "lookup":
